@@ -42,8 +42,20 @@ def cells_for(tier, seed):
     rng = np.random.default_rng([seed, 202])
     n = 8 if tier == "quick" else 32
     cells = []
+    fams = list(ens.FAMILIES)
+    bits_rng = np.random.default_rng([seed, 203])
+    bits = None
     for i in range(n):
-        cells.append(ens.make_cell(int(rng.integers(0, 2**31 - 1)), family=FAMS[i % len(FAMS)], kernel=["tpcn", "rwm"][(i + i // len(FAMS)) % 2] if FAMS[i % len(FAMS)] != "mixed" else "rwm", clustering=bool(i % 2 == 0), N=32))
+        fi, npass = i % len(fams), i // len(fams)
+        fam = fams[(fi + seed) % len(fams)]  # the quick tier runs 8 of the 9 families; which one is left out rotates with the seed
+        if fi == 0:
+            # even passes draw (kernel, clustering) per family; the following odd pass takes the complement
+            bits = bits_rng.integers(0, 2, size=(len(fams), 2)) if npass % 2 == 0 else 1 - bits
+        k, c = (int(v) for v in bits[fi])
+        kernel = ["tpcn", "rwm"][k]
+        if fam in ("periodic", "reflective", "mixed"):
+            kernel = "rwm" if npass != 2 else "tpcn"  # tpCN x folding is finding K1: such a cell decides nothing
+        cells.append(ens.make_cell(int(rng.integers(0, 2**31 - 1)), family=fam, kernel=kernel, clustering=bool(c), N=32))
     # dynamic (volume-variation) mode with a target tight enough that the schedule repeatedly stays / takes tiny steps
     for j in range(1 if tier == "quick" else 4):
         cells.append(ens.make_cell(int(rng.integers(0, 2**31 - 1)), family=["gauss", "exp-prior", "wall", "bimodal"][j % 4], kernel=["rwm", "tpcn"][j % 2],
